@@ -81,6 +81,13 @@ def build_lean(targets=("HkModel", "hkdriver")):
         return rc == 0, out + out2
 
 
+def build_driver_only():
+    """models + driver (no proofs): lets the search for a failing input run even when a proof obligation broke"""
+    with Lock("lake"):
+        rc, out = run(["lake", "build", "hkdriver"], cwd=LEAN, timeout=3000)
+        return rc == 0, out
+
+
 def repo_builds():
     rc, out = run(["go", "build", "./..."], cwd=REPO, env=goenv(), timeout=900)
     return rc == 0, out
@@ -207,7 +214,11 @@ class Result:
         open_kf = [k for k in kf if k.get("status") == "open"]
         reported = 0
         seen_known = set()
+        any_found = any(v["found"] for v in self.violations)
         for i, v in enumerate(self.violations):
+            if any_found and not v["found"] and v["fingerprint"] in ("lean-build", "lean-audit"):
+                self.notes.append("broken proof obligation (search found a failing input, reported separately): " + v["what"][:300])
+                continue
             match = next((k for k in open_kf if k.get("fingerprint") == v["fingerprint"]), None)
             if match is not None:
                 if match["fingerprint"] not in seen_known:
@@ -242,7 +253,9 @@ def proof_coverage(prop, res, extra_cov):
         res.violation("lean-build", "Lean project no longer builds (a proof obligation or a regenerated table broke): " + err,
                       {"kind": "lean-build", "theorem_or_tie": "lake build HkModel hkdriver", "log": out[-4000:]}, found=False)
         cov.update(extra_cov)
-        return cov, False
+        # the models and the driver may still build: then the correspondence runs as the search for a failing input
+        dok, _ = build_driver_only()
+        return cov, dok
     n, d, detail, log = audit(prop)
     cov["obligations"], cov["discharged"] = n, d
     cov["axioms"] = detail
